@@ -86,6 +86,19 @@ def layouts(ctx):
     out.append(("dotted-stems-extensionless", {"u.json": U, "types.v1.json": T1, "types.v2.json": T2},
                 {"http://x/u": ("example.com/u", "u/gen.go"), "http://x/t1": ("example.com/t1", "t1/gen.go"), "http://x/t2": ("example.com/t2", "t2/gen.go")},
                 [["u.json"]], None))
+    # ids in the spellings they take in the wild (draft-04 trailing '#', upper-case scheme and host, urn, non-ASCII and spaces, relative), each with mappings keyed by the id as written
+    ids = ["http://example.com/schemas/a#", "HTTP://Example.COM/Schemas/B", "urn:example:schemas:c", "http://example.com/sch\u00e9mas/d e", "schemas/e.json", "http://example.com/f?x=1&y=2#frag"][:6]
+    ids[5] = "http://example.com/f?x&y#frag"          # (an '=' cannot be part of a --schema-* key)
+    fs, mp = {}, {}
+    for i, idv in enumerate(ids):
+        nm = "f%d" % i
+        sc = {"$id": idv, "type": "object", "$defs": {"T%d" % i: {"type": "object", "properties": {"v": {"type": "integer", "minimum": i}}, "required": ["v"]}},
+              "properties": {"own": {"$ref": "#/$defs/T%d" % i}, "name": {"type": "string", "minLength": 1}}}
+        if i > 0:
+            sc["properties"]["prev"] = {"$ref": "f%d.json#/$defs/T%d" % (i - 1, i - 1)}
+        fs[nm + ".json"] = sc
+        mp[idv] = ("example.com/p%d" % i, "p%d/gen.go" % i)
+    out.append(("id-spellings", fs, mp, [sorted(fs), ["f5.json"]], None))
     return out
 
 
